@@ -27,4 +27,10 @@ TEXTS = {
         technique="Coq proof: bit-level linearity + syndrome decomposition + kernel-evaluated distance table (merge sort, 31 713 entries per code) + per-run "
                   "model/implementation correspondence with the property predicate evaluated on the implementation",
     ),
+    "C06": dict(
+        text="PLACEHOLDER",
+        design_ref="DESIGN.md section 6, C06",
+        note="PLACEHOLDER",
+        technique="Coq proof over a hand-written model of src/address.rs, src/blech32/decode.rs, bech32 0.11 and base58ck + per-run correspondence",
+    ),
 }
